@@ -29,6 +29,21 @@ CLAIMS = {
             'decided by the FdlBuild specification (C02).',
             'TLA+ refinement (algorithm vs statement) checked by TLC; per-state replay into fiddle; '
             'recorded observations judged by the specification'),
+    'C02': (MC,
+            'The level-A build specification (FdlHeap + MC_C02) generates every complete object graph within '
+            'the bound bottom-up through the modelled constructors and explores every enabled order of the '
+            'Call action; TLC checks ExactlyOnce, DepsFirst, MirrorsConfig and Progress. Every generated heap '
+            'is realised and built by the real library: the invocation log must be a behaviour of Call, the '
+            'projected result must equal the specification\'s built graph (same sharing, distinct nodes '
+            'distinct), the configuration must be unchanged and two builds must share no object. Larger '
+            'random heaps are recorded and judged by Trace_C02; temporaries-creating node types and deep '
+            'chains are replayed as parametric scenarios.',
+            'DESIGN.md §5 C02',
+            'Trusted: TLC, harness realize/project (identity-based first-visit numbering). Bounded: heaps of '
+            '<= 4 (quick) / 5 (thorough) objects exhaustively, <= 14 randomly. Leaf-only tuples have value '
+            'semantics and are not shared by the generator.',
+            'TLA+ heap machine + TLC exhaustive generation; replay into fiddle; recorded invocation orders '
+            'validated against the Call action'),
     'C03': (MC,
             'TLC explores the level-A argument-store specification (FdlStore: a dict restricted to the '
             'signature plus a Python list with a fixed prefix) exhaustively for all signatures of <= 3-4 '
